@@ -21,6 +21,7 @@ MUTATORS = {"append", "extend", "insert", "remove", "pop", "clear", "update", "s
             "add", "discard", "popitem", "reverse", "__setitem__", "__delitem__", "appendleft", "popleft"}
 
 
+MOD_ATTRS: Dict[str, Set[str]] = {}   # set by Program: callee name -> attribute names it may store to (transitively)
 PURE_METHODS: Set[str] = set()   # set by Program: method names all of whose definitions are side-effect free
 
 
@@ -455,6 +456,11 @@ def _writes(n: Node) -> Set[str]:
                     root = root.value if not isinstance(root, ast.Call) else root.func
                 if isinstance(root, ast.Name) and x.func.attr not in PURE_METHODS:
                     w.add("@call:" + root.id)
+                for a_ in MOD_ATTRS.get(x.func.attr, ()):
+                    w.add("@attr:" + a_)
+            elif isinstance(x, ast.Call) and isinstance(x.func, ast.Name):
+                for a_ in MOD_ATTRS.get(x.func.id, ()):
+                    w.add("@attr:" + a_)
     return w
 
 
@@ -473,6 +479,24 @@ def _names_of_text(t: str) -> Tuple[Set[str], bool]:
         r = (names, has_call)
         _NAME_CACHE[t] = r
     return r
+
+
+_ATTR_CACHE: Dict[str, Set[str]] = {}
+
+
+def _has_attr(t: str, attr: str) -> bool:
+    r = _ATTR_CACHE.get(t)
+    if r is None:
+        try:
+            r = {n.attr for n in ast.walk(ast.parse(t, mode="eval")) if isinstance(n, ast.Attribute) and not _is_call_func(n)}
+        except SyntaxError:
+            r = set()
+        _ATTR_CACHE[t] = r
+    return attr in r
+
+
+def _is_call_func(n) -> bool:
+    return False
 
 
 def _fact_texts(f) -> List[str]:
@@ -494,6 +518,10 @@ def _killed(f, writes: Set[str]) -> bool:
         for w in writes:
             if w.startswith("@call:"):
                 if has_call and w[6:] in names:
+                    return True
+                continue
+            if w.startswith("@attr:"):
+                if ("." + w[6:]) in t and _has_attr(t, w[6:]):
                     return True
                 continue
             if w in names:
